@@ -4,6 +4,7 @@
   account / `Value` / `TokenMetaData`, makeslice with a wrapped count).  Theorems: no function reaches it.
 -/
 import Proofs.NoPanic
+import Proofs.NoPanicMulti
 import Proofs.Shape
 namespace C11
 open Esdt
@@ -109,23 +110,39 @@ theorem ok_means_rc_ok (f : FnId) (env : Env) (c : Call) (ctx ctx' : Ctx) (out :
   · exact (rc_esdtNFTAddURI env c ctx).elim h
   · exact (rc_multiTransfer env c ctx).elim h
 
-/-- PARTIAL for MultiESDTNFTTransfer: no index-out-of-range, no wrapped count, no allocation panic — relative to any
-    state invariant `I` that keeps the per-item ledger helpers panic-free and is preserved by them (they run on
-    intermediate states of the same call).  What is missing for the full statement: that the protocol-written-store
-    invariant is such an `I` (needs a size budget for the codec round trip across the call's own credits and the
-    one-kind-per-key consistency of token identifiers); the per-item obligations on a concrete state are
-    `item_no_panic` / `np_addNFTToDestination` / `np_addToESDTBalance`. -/
-theorem multi_no_panic_partial (env : Env) (c : Call) (ctx : Ctx) (I : Accts → Prop) (hI : ItemsSafe env c I)
+/-- MultiESDTNFTTransfer: no index-out-of-range, no wrapped count, no allocation panic — relative to any state invariant
+    `I` that keeps the per-item ledger helpers panic-free and is preserved by them (they run on intermediate states of the
+    same call); instantiated below (`multi_no_panic`) with the well-formedness invariant -/
+theorem multi_no_panic_relative (env : Env) (c : Call) (ctx : Ctx) (I : Accts → Prop)
+    (hI : c.caller = c.rcv → ItemsSafe env c I) (hD : c.caller ≠ c.rcv → DestItemsSafe env c I)
     (h0 : I ctx.accts) (hphys : c.args.length < 2 ^ 63) (hreach : Reach env c) :
     exec env .multiTransfer c ctx ≠ .panic := by
   unfold exec; simp only [runFn]
-  exact (np_multiTransfer env c ctx I hI h0 (by simpa [two63] using hphys) hreach.sender
+  exact (np_multiTransfer env c ctx I hI hD h0 (by simpa [two63] using hphys) hreach.sender
     (fun hne => hreach.payload hne)).elim
+
+/-- FULL for MultiESDTNFTTransfer (both sides, any number of items, repeated items included): on a well-formed state
+    (the C15 invariant `Canon`, stored values shorter than 2^63 bytes) where sender and destination hold one kind of entry
+    per key (`Kind`: token identifiers do not alias — system-contract discipline; only needed on the sender side with a
+    same-shard destination), under transaction reachability, with none of the involved accounts being the system account:
+    no panic — no index out of range, no wrapped count, no nil `Value` or metadata dereference, on any intermediate state
+    of the call (the per-item invariant `MInv2` is preserved item by item: `itemsSafe2`, `destItemsSafe2`) -/
+theorem multi_no_panic (env : Env) (c : Call) (ctx : Ctx) (hreach : Reach env c)
+    (hC : Canon ctx.accts) (hS : Short ctx.accts)
+    (hK : c.caller = c.rcv → ∀ dst, c.args[0]? = some dst → Kind ctx.accts c.caller dst)
+    (hsys : c.caller ≠ systemAccountAddress ∧ c.rcv ≠ systemAccountAddress ∧
+      ∀ dst, c.args[0]? = some dst → dst ≠ systemAccountAddress)
+    (hphys : c.args.length < 2 ^ 63) :
+    exec env .multiTransfer c ctx ≠ .panic :=
+  multi_no_panic_relative env c ctx (MInv2 c)
+    (fun hs => itemsSafe2 env c hs hsys.1 hsys.2.2) (fun hs => destItemsSafe2 env c hs hsys.2.1)
+    ⟨hC, hS, hK⟩ hphys hreach
 
 /-- one sender-side item on a concrete state -/
 theorem item_no_panic (env : Env) (c : Call) (l : Bool) (dst tok : Bytes) (n q : Nat) (v : Bool) (ctx : Ctx)
     (hS : AcctVal ctx.accts c.caller) (hne : dst ≠ c.caller) (hD : l = true → AcctVal ctx.accts dst)
-    (hK : l = true → ∀ t cur, decToken (ctx.accts.read c.caller (nftKey (esdtKeyPrefix ++ tok) n)) = some t →
+    (hK : l = true → ∀ t cur, ctx.accts.read c.caller (nftKey (esdtKeyPrefix ++ tok) n) ≠ [] →
+      decToken (ctx.accts.read c.caller (nftKey (esdtKeyPrefix ++ tok) n)) = some t → (0 < n → t.md.isSome = true) →
       tokenOf (ctx.accts.read dst (nftKey (esdtKeyPrefix ++ tok) (mdNonce t))) = some cur →
       cur.md.isSome = true → t.md.isSome = true) :
     transferOne env c l dst tok n q v ctx ≠ .panic :=
@@ -186,5 +203,18 @@ def isOk {α} : Res α → Bool
   | .ok _ => true
   | _ => false
 example : isOk (exec sampleEnv .esdtTransfer xfer { accts := w0 }) = true := by decide +kernel
+
+/-! non-vacuity of `multi_no_panic`: the state of the examples above, a same-shard multi transfer of 3 of the 5 tokens
+    from alice to bob (whose storage is empty): the kind hypothesis holds, and the call succeeds -/
+def multiCall : Call :=
+  { fn := fnMultiESDTNFTTransfer, caller := alice, rcv := alice, args := [bob, [1], tk, [], [3]], gas := 100 }
+example : Kind w0 alice bob := by
+  intro k t _ _ _ cur hcur
+  have hb : w0.read bob k = [] := by
+    unfold w0; rw [Accts.read_write, if_neg (by intro h; exact absurd h.1 (by decide))]; rfl
+  rw [hb] at hcur
+  simp [tokenOf] at hcur
+  subst hcur; rfl
+example : isOk (exec sampleEnv .multiTransfer multiCall { accts := w0 }) = true := by decide +kernel
 
 end C11
